@@ -475,6 +475,40 @@ def run_case(ctx, inp):
                % (eng, out[eng].shape, (N, ncol)), sig=dict(engine=eng))
             return res
 
+    # ---- same argument objects handed to both engines, no copies (what a caller does) ---------
+    # The start pixels are passed as the integer array grey_dilation would return (half of the
+    # cases; refine rounds float starts itself, so this is the same request) or as floats.  Same
+    # arguments => same numbers as above, from either engine, in either order, and the caller's
+    # arrays must come back untouched.
+    as_int = (N + int(sum(sum(s_) for s_ in starts))) % 2 == 0
+    shared_c = np.round(coords).astype(np.int64) if as_int else coords.copy()
+    shared_raw, shared_img = raw.copy(), img.copy()
+    keep_c, keep_raw, keep_img = shared_c.copy(), shared_raw.copy(), shared_img.copy()
+    order = ("python", "numba") if (N + nd) % 2 == 0 else ("numba", "python")
+    res.stat("shared_args_int_coords" if as_int else "shared_args_float_coords")
+    for eng in order + (order[0],):
+        try:
+            r2 = np.asarray(com.refine_com_arr(shared_raw, shared_img, tuple(radius), shared_c,
+                                               max_iterations=inp["max_iter"], engine=eng,
+                                               shift_thresh=thrf, characterize=char), dtype=float)
+        except Exception as e:
+            pv("engine-raises", "refine_com_arr(engine=%r) raised %s on %s start pixels: %s"
+               % (eng, type(e).__name__, shared_c.dtype, str(e)[:200]), sig=dict(engine=eng))
+            return res
+        for nm, a_, b_ in (("coords", shared_c, keep_c), ("raw_image", shared_raw, keep_raw),
+                           ("image", shared_img, keep_img)):
+            if a_.dtype != b_.dtype or not np.array_equal(a_, b_):
+                pv("caller-array-modified", "refine_com_arr(engine=%r) modified the caller's %s array"
+                   % (eng, nm), impl=a_.tolist()[:20], model=b_.tolist()[:20], sig=dict(engine=eng))
+                return res
+        if r2.shape != out[eng].shape or not np.array_equal(r2, out[eng], equal_nan=True):
+            pv("same-arguments-different-numbers",
+               "refine_com_arr(engine=%r) on the same arguments (%s start pixels, call order %s) differs "
+               "from its first answer" % (eng, shared_c.dtype, "->".join(order)),
+               impl=r2.tolist()[:6], model=out[eng].tolist()[:6], sig=dict(engine=eng))
+            return res
+    res.stat("shared_args_passes")
+
     moved = False
     sample_rows = []
     for f in range(N):
